@@ -142,6 +142,13 @@ def gen_strings(tier):
             if s_ not in seen:
                 seen.add(s_)
                 yield s_
+    # double-precision literals in every mantissa shape (integer mantissas with trailing zeros, trailing-zero
+    # fractions, no digit before / after the point) x exponent shapes
+    for lit in ("10d0", "300d0", "20d-1", "100d0", "1000d-3", "1.00d0", "2.00d-10", "10.5d0", "1.d0", ".5d0", "5.d-1", "30d1", "3d2", "1.50d+1", "200e0", "10e0"):
+        for s_ in (lit, f"Tgas/{lit}", f"(Tgas/{lit})**0.5", f"{lit}*Tgas", f"exp(-{lit}/Tgas)", f"foo+{lit}"):
+            if s_ not in seen:
+                seen.add(s_)
+                yield s_
     # abundance references beyond one-letter species
     for lf in IDX_LEAVES:
         yield lf
